@@ -317,7 +317,20 @@ def _cms_nonce_values(op, seed, n, output):
     return vals
 
 
+def _op_sm2_encrypt_pre_compute(l, seed, n):
+    pc = Buf(96 * 8, fill=0)
+    r = l.sm2_encrypt_pre_compute(pc)
+    return r, pc.raw()
+
+
+def _op_sm2_fast_sign_pre_compute(l, seed, n):
+    pc = Buf(64 * 32, fill=0)
+    r = l.sm2_fast_sign_pre_compute(pc)
+    return r, pc.raw()
+
+
 PURE = {
+    "sm2_encrypt_pre_compute": _op_sm2_encrypt_pre_compute, "sm2_fast_sign_pre_compute": _op_sm2_fast_sign_pre_compute,
     "cms_envelop": _op_cms_envelop, "cms_sign": _op_cms_sign, "cms_sign_and_envelop": _op_cms_sign_and_envelop,
     "sm2_key_generate": _op_sm2_keygen, "sm2_sign": _op_sm2_sign, "sm2_do_sign": _op_sm2_do_sign, "sm2_sign_fixlen": _op_sm2_sign_fixlen,
     "sm2_sign_ctx": _op_sm2_sign_ctx, "sm2_encrypt": _op_sm2_encrypt, "sm2_encrypt_fixlen": _op_sm2_encrypt_fixlen, "sm2_encrypt_ctx": _op_sm2_encrypt_ctx,
@@ -333,7 +346,7 @@ for _fn, _kind in (("sm9_sign_master_key_info_encrypt_to_der", "sign"), ("sm9_si
     PURE[_fn] = _op_sm9_export(_fn)
     SM9_KIND[_fn] = _kind
 # operations whose first entropy draw is a scalar that has to lie in [1, n-1] (0 must be drawn again)
-ZERO_DRAW_OPS = ("sm2_key_generate", "sm2_sign", "sm2_do_sign", "sm2_sign_fixlen", "sm2_sign_ctx", "sm2_encrypt", "sm2_encrypt_fixlen", "sm2_encrypt_ctx",
+ZERO_DRAW_OPS = ("sm2_encrypt_pre_compute", "sm2_fast_sign_pre_compute", "sm2_key_generate", "sm2_sign", "sm2_do_sign", "sm2_sign_fixlen", "sm2_sign_ctx", "sm2_encrypt", "sm2_encrypt_fixlen", "sm2_encrypt_ctx",
                  "sm9_sign_master_key_generate", "sm9_enc_master_key_generate", "sm9_sign", "sm9_encrypt", "sm9_exch_step_1A",
                  "sm9_kem_encrypt", "sm9_exch_step_1B", "x509_cert_sign_to_der", "x509_req_sign_to_der", "x509_crl_sign_to_der")
 
@@ -347,7 +360,7 @@ def _call(l, op, seed, n):
     return PURE[op](l, seed, n)
 
 
-@P.sub("pure", pure_case, quick=880, thorough=12000, chunk=40)
+@P.sub("pure", pure_case, quick=940, thorough=12000, chunk=40)
 def pure(case, ctx):
     """library operations: determinism on one stream, dependence on the stream, failure at every draw index"""
     l = lib(ctx.variant)
@@ -413,7 +426,8 @@ def pure(case, ctx):
 
 
 # ---------------------------------------------------------------------------
-hist_case = st.fixed_dictionaries({"op": st.sampled_from(["sm2_sign_ctx", "sm2_sign_ctx", "sm2_encrypt_ctx", "sm2_sign", "sm2_encrypt", "tls_cbc_encrypt", "sm9_sign", "sm9_encrypt"]),
+hist_case = st.fixed_dictionaries({"op": st.sampled_from(["sm2_sign_ctx", "sm2_sign_ctx", "sm2_encrypt_ctx", "sm2_sign", "sm2_encrypt", "tls_cbc_encrypt", "sm9_sign", "sm9_encrypt",
+                                                          "sm2_encrypt_precomp", "sm2_sign_precomp"]),
                                    "seed": st.integers(0, 1 << 20), "stream": st.integers(1, 1 << 40), "reps": st.integers(40, 200),
                                    # signing context: which finish call ends each repetition (variable-length, fixed-length, or both in turn)
                                    "fix": st.sampled_from(["never", "never", "always", "mixed", "mixed"]),
@@ -423,7 +437,7 @@ hist_case = st.fixed_dictionaries({"op": st.sampled_from(["sm2_sign_ctx", "sm2_s
                                                                 st.integers(0, 40)), max_size=3)})
 
 
-@P.sub("history", hist_case, quick=64, thorough=600, chunk=4)
+@P.sub("history", hist_case, quick=96, thorough=600, chunk=4)
 def history(case, ctx):
     """many repetitions on one entropy stream (one context where there is one): no nonce-derived value repeats"""
     l = lib(ctx.variant)
@@ -495,6 +509,46 @@ def history(case, ctx):
                     continue
                 ctx.check(r == 1, "sm2_encrypt_finish failed in repetition %d" % i, "hist/ret")
                 vals.append(D.parse_ct(out.raw(ol.value))[:2])
+        elif op in ("sm2_encrypt_precomp", "sm2_sign_precomp"):
+            # the public pre-computed interfaces: a batch of nonces is drawn at once (8 encryption pairs, 32 signing pairs) and every
+            # pair of every batch is then used exactly once, as the contexts do; no nonce may come back within a batch or across batches
+            enc = op == "sm2_encrypt_precomp"
+            d = _d(seed, "k")
+            num, size = (8, 96) if enc else (32, 64)
+            if enc:
+                key = key_in(None, M.pub_of(d))
+            else:
+                fp = Buf(32, fill=0)
+                assert l.sm2_fast_sign_compute_key(key_in(d, None), fp) == 1
+            batches = max(2, reps // (8 if enc else 16))
+            for i in range(batches):
+                pc = Buf(size * num, fill=0)
+                before = sh.draws()
+                armed = arm(i)
+                r = l.sm2_encrypt_pre_compute(pc) if enc else l.sm2_fast_sign_pre_compute(pc)
+                hit = armed and sh.draws() > before + faults[i]
+                sh.fail_at(-1)
+                if hit:
+                    failed_ops += 1
+                    ctx.check(r != 1, "%s succeeded although an entropy draw failed (batch %d)" % (op, i), "hist/fail-open/" + op)
+                    continue
+                ctx.check(r == 1, "%s: pre-computation failed in batch %d" % (op, i), "hist/ret")
+                raw = pc.raw()
+                for j in range(num):
+                    slot = Buf.of(raw[size * j:size * (j + 1)])
+                    if enc:
+                        cb = Buf(sizeof("SM2_CIPHERTEXT"), fill=0)
+                        r2 = l.sm2_do_encrypt_ex(key, slot, Buf.of(b"same"), 4, cb)
+                        if r2 != 1:
+                            ctx.note("encrypt-ex-refused")      # the all-zero KDF output: a documented outcome
+                            continue
+                        vals.append(cb.raw(64))                   # C1 = [k]G
+                    else:
+                        so = Buf(64, fill=0)
+                        r2 = l.sm2_fast_sign(fp, slot, Buf.of(_bytes(seed, "dgst", 32)), so)
+                        ctx.check(r2 == 1, "sm2_fast_sign failed (batch %d pair %d)" % (i, j), "hist/ret")
+                        vals.append(so.raw(32))                   # r = e + x1: same e, so equal r means equal nonce
+            reps = batches * num
         else:
             for i in range(reps):
                 before = sh.draws()
